@@ -220,6 +220,8 @@ func (g *c18Gram) raw() []string {
 	}
 	for _, e := range []string{
 		"sum (m)", "count (m offset 1m)", "sum by (job) (rate(m[1m]))", "max without (instance) (delta(m[5m]))",
+		// no grouping: all series pass through one cursor one after the other (reducer state must be reset between series)
+		"sum (rate(m[5m]))", "max (delta(m[1m]))", "sum (sum_over_time(m[5m]))", "min (irate(m[5m]))",
 		"avg (quantile_over_time(0.5, m[5m]))", "min by (job) (changes(m[5m] offset 1m))",
 		"m + n", "rate(m[1m]) / rate(n[1m])", "max_over_time(m[5m]) - min_over_time(m[5m])", "resets(m[5m]) > 0",
 	} {
